@@ -370,7 +370,14 @@ def stub_size_in_base(ex, nc, args):
         xv, bv, d = abs(int(simp(x))), int(simp(base)), 1
         while xv >= bv ** d:
             d += 1
-        return d + (ex.choose(2, 'size_in_base over-estimates by one') if xv else 0)
+        if not xv:
+            return 1
+        # both estimates are explored; the one the formula gives in IEEE arithmetic comes first, so that a concrete
+        # translator vector (which takes the first alternative) follows the native run (base 2: always one over)
+        import math
+        f = 1 + int(math.floor(xv.bit_length() * math.log(2) / math.log(bv)))
+        alts = [f, 2 * d + 1 - f] if f in (d, d + 1) else [d, d + 1]
+        return alts[ex.choose(2, 'size_in_base over-estimates by one')]
     if ex.branch(n_eq(x, 0), 'int part is zero'):
         return 1
     d = 1
